@@ -437,7 +437,9 @@ func (pw *pubWorld) run(hist []PubOp) []PubLine {
 	var tSched, tDrain time.Time
 	defer func() {
 		if os.Getenv("VERIF_C20_DEBUG") != "" {
-			defer func() { fmt.Fprintf(os.Stderr, "run: schedule %v drain %v stop %v\n", tSched.Sub(tStart), tDrain.Sub(tSched), time.Since(tDrain)) }()
+			defer func() {
+				fmt.Fprintf(os.Stderr, "run: schedule %v drain %v stop %v\n", tSched.Sub(tStart), tDrain.Sub(tSched), time.Since(tDrain))
+			}()
 		}
 		cancel()
 		go func() { _ = group.Wait(); deferFn(); close(stopped) }()
